@@ -17,6 +17,22 @@ inline void sort_unique(std::vector<std::uint64_t>& v) {
 inline std::uint64_t low_mask(unsigned bits) { return bits >= 64 ? ~0ull : ((1ull << bits) - 1); }
 template<class S> inline unsigned nbits() { return 8 * sizeof(S); }
 
+// R(b, n): n fixed pseudo-random patterns (splitmix64 sequence, identical in every run): the unstructured members of the declared alphabets.
+// They are enumerated like every other member; nothing is drawn at run time.
+inline std::vector<std::uint64_t> alphabet_R(unsigned bits, unsigned n) {
+    std::vector<std::uint64_t> v;
+    std::uint64_t x = 0xA5A5F00D12345678ull + bits;
+    for (unsigned i = 0; i < n; ++i) {
+        x += 0x9E3779B97F4A7C15ull;
+        std::uint64_t z = x;
+        z = (z ^ (z >> 30)) * 0xBF58476D1CE4E5B9ull;
+        z = (z ^ (z >> 27)) * 0x94D049BB133111EBull;
+        z ^= z >> 31;
+        v.push_back(z & (bits >= 64 ? ~0ull : ((1ull << bits) - 1)));
+    }
+    return v;
+}
+
 // K(b): core alphabet, about 40 values per width
 inline std::vector<std::uint64_t> alphabet_K(unsigned bits) {
     const std::uint64_t M = low_mask(bits);
@@ -100,6 +116,7 @@ inline std::vector<std::uint64_t> alphabet_L(unsigned bits, bool full) {
             for (unsigned j = 0; j < 6; ++j) v.push_back(e[j] & M);
         }
     }
+    { std::vector<std::uint64_t> r = alphabet_R(bits, bits == 16 ? 64 : (full ? 512 : 256)); v.insert(v.end(), r.begin(), r.end()); }
     sort_unique(v);
     return v;
 }
@@ -248,6 +265,7 @@ inline std::vector<std::uint64_t> alphabet_F32L() {
             v.push_back((sgn << 31) | ((1u << k) - 1));
             v.push_back((sgn << 31) | ((1u << k) + 1));
         }
+    { std::vector<std::uint64_t> r = alphabet_R(32, 512); v.insert(v.end(), r.begin(), r.end()); }
     sort_unique(v);
     return v;
 }
@@ -289,6 +307,7 @@ inline std::vector<std::uint64_t> alphabet_F64L() {
     for (std::uint64_t sgn = 0; sgn < 2; ++sgn)
         for (std::size_t e = 0; e < exps.size(); ++e)
             for (unsigned m = 0; m < 8; ++m) v.push_back((sgn << 63) | (std::uint64_t(exps[e]) << 52) | mant[m]);
+    { std::vector<std::uint64_t> r = alphabet_R(64, 256); v.insert(v.end(), r.begin(), r.end()); }
     sort_unique(v);
     return v;
 }
@@ -334,6 +353,7 @@ inline std::vector<std::uint64_t> alphabet_F64S(bool full) {
                 std::uint64_t u = d2u(x);
                 v.push_back(u); v.push_back(u + 1); v.push_back(u - 1);
             }
+    { std::vector<std::uint64_t> r = alphabet_R(64, 4096); v.insert(v.end(), r.begin(), r.end()); }
     sort_unique(v);
     return v;
 }
